@@ -25,11 +25,14 @@ AA = "ACDEFGHILMNQSTVWY"
 
 def make_fasta(rng, nprot, path, subset_every=5):
     """proteins = concatenations of tryptic peptides (no internal K/R, no P after a site); every 5th protein is a
-    sub-protein of its predecessor (protein grouping has something to do)"""
+    sub-protein of its predecessor and every 7th an exact copy of its predecessor under another name (protein grouping
+    has something to do, and the order of the members of a group has something to depend on)"""
     peps_of = []
     lines = []
     for i in range(nprot):
-        if i % subset_every == subset_every - 1 and peps_of:
+        if i % 7 == 6 and peps_of:
+            peps = list(peps_of[-1])         # indistinguishable proteins: same sequence under another name (isoform entry)
+        elif i % subset_every == subset_every - 1 and peps_of:
             peps = peps_of[-1][:2]
         else:
             peps = []
@@ -101,7 +104,8 @@ def session(spec):
         first = None
         if spec.get("refeed") is not None:
             # first run to obtain trained models, then feed them back in the requested order
-            _, ms, sc0, _ = mokapot.brew([ds], model, test_fdr=0.05, folds=spec["folds"], max_workers=1, rng=spec["seed"])
+            _, ms, sc0, _ = mokapot.brew([ds], model, test_fdr=0.05, folds=spec["folds"], max_workers=1, rng=spec["seed"],
+                                         **({"subset_max_train": int(spec["cap"])} if spec.get("cap") else {}))
             ds, proteins = build(spec, wd)      # brew consumes the spectra dataframe: rebuild the dataset object
             rec.events.clear()
             if all(bool(m.is_trained) for m in ms):
@@ -114,8 +118,9 @@ def session(spec):
                                            rng=spec["seed"], token=tok)
                 out["labels"].append("refeed_skipped_untrained_model")
                 out["digests"].append("skipped")
+        kw = {"subset_max_train": int(spec["cap"])} if spec.get("cap") else {}
         _, ms, scs, descs = mokapot.brew([ds], models_in, test_fdr=0.05, folds=spec["folds"],
-                                         max_workers=spec.get("workers", 1), rng=spec["seed"])
+                                         max_workers=spec.get("workers", 1), rng=spec["seed"], **kw)
         scores = np.asarray(scs[0], dtype=float)
         folds = sorted((ev[1], tuple(sorted(ev[2]))) for ev in rec.events if ev[0] == "pred")
         merged = {}
